@@ -80,6 +80,8 @@ class PathCtx:
         self.notes = []
         self.forks = []  # (site, term-string) for evidence
         self.lifted_cache = {}
+        self.model = None
+        self._cand_model = None
 
     # ---- symbols -------------------------------------------------------
     def _new_name(self, name):
@@ -109,6 +111,8 @@ class PathCtx:
         if weak is not None:
             self.has_weak = True
         self.solver.add(t)
+        if self.model is not None and self._model_says(t) is not True:
+            self.model = None
         # ownership: the axiom defines the most recently created symbol generation it mentions
         self._last_was_axiom = True
         names = set(n for n in T.free_vars(t) if "!" in n)
@@ -151,6 +155,8 @@ class PathCtx:
             return
         self.assumptions.append(t)
         self.solver.add(t)
+        if self.model is not None and self._model_says(t) is not True:
+            self.model = None
 
     def oblige(self, t, msg, where):
         self.obligations.append((t, msg, where, len(self.pc)))
@@ -164,7 +170,26 @@ class PathCtx:
         if r == z3.unknown:
             self.stats.feas_unknown += 1
             return True
+        if r == z3.sat:
+            try:
+                self._cand_model = (lit.get_id(), self.solver.model())
+            except z3.Z3Exception:
+                self._cand_model = None
         return r == z3.sat
+
+    def _model_says(self, cond):
+        """truth value of cond under the cached model of the current hypotheses (None if no model)"""
+        if self.model is None:
+            return None
+        try:
+            v = self.model.eval(cond, model_completion=True)
+        except z3.Z3Exception:
+            return None
+        if z3.is_true(v):
+            return True
+        if z3.is_false(v):
+            return False
+        return None
 
     def decide(self, cond, site=None):
         """concrete outcome of a boolean element"""
@@ -185,8 +210,24 @@ class PathCtx:
         else:
             if len(self.decisions) >= self.max_decisions:
                 raise Unwound("decision bound %d at %s" % (self.max_decisions, site))
-            ft = self._feasible(cond)
-            ff = self._feasible(z3.Not(cond))
+            ncond = z3.Not(cond)
+            says = self._model_says(cond)
+            self._cand_model = None
+            mt = mf = None
+            if says is True:
+                ft, mt = True, self.model
+                ff = self._feasible(ncond)
+                mf = self._cand_model[1] if (ff and self._cand_model) else None
+            elif says is False:
+                ff, mf = True, self.model
+                ft = self._feasible(cond)
+                mt = self._cand_model[1] if (ft and self._cand_model) else None
+            else:
+                ft = self._feasible(cond)
+                mt = self._cand_model[1] if (ft and self._cand_model) else None
+                self._cand_model = None
+                ff = self._feasible(ncond)
+                mf = self._cand_model[1] if (ff and self._cand_model) else None
             if ft and ff:
                 nf = self.fork_count.get(site, 0) + 1
                 self.fork_count[site] = nf
@@ -201,6 +242,7 @@ class PathCtx:
                 out = False
             else:
                 raise Infeasible("path condition infeasible at %s" % site)
+            self.model = mt if out else mf
         self.decisions.append(out)
         lit = cond if out else z3.Not(cond)
         self.pc.append(lit)
